@@ -1,0 +1,103 @@
+// Copyright 2020-2025 Buf Technologies, Inc.
+//
+// Licensed under the Apache License, Version 2.0 (the "License");
+// you may not use this file except in compliance with the License.
+// You may obtain a copy of the License at
+//
+//      http://www.apache.org/licenses/LICENSE-2.0
+//
+// Unless required by applicable law or agreed to in writing, software
+// distributed under the License is distributed on an "AS IS" BASIS,
+// WITHOUT WARRANTIES OR CONDITIONS OF ANY KIND, either express or implied.
+// See the License for the specific language governing permissions and
+// limitations under the License.
+
+
+//go:build verif
+
+package bufconnect
+
+// Contracts for the gocv verifier (see /verif/DESIGN.md), author ca-r4g. Comment-only.
+// Trusted declarations and ghost variables (rg_...): /verif/specs/R4g.spec.
+//
+// C19 "an authentication token is attached to a registry request only if it was configured for that request's registry
+// host": the authorization interceptor (zz_verif_contracts.go) is the ONLY interceptor that may write the Authorization
+// header. The four other interceptors the CLI installs write at most their own documented header, and the errors they
+// return name the address of THIS request.
+//
+// (closure 0 is the outer `func(next)`, closure 1 the per-request function.)
+//
+// "sets the Buf CLI version into all request headers": exactly one header is written per request: key buf-version
+// (ghost.hdrKeys: keys given to http.Header.Set), value the version (ghost.hdrVals: values given to it).
+// (ghost.hdrKeys / hdrVals record the writes of the interceptor's OWN code; the continuation `next` is the rest of the
+// chain - the authorization interceptor is always last - and is covered by its own contract.)
+//@ func NewSetCLIVersionInterceptor(version) (r)
+//@   property C19
+//@   modifies heap
+//@   closure 0 ensures true
+//@   closure 1 ensures only-the-version-is-written: ghost.hdrVals == add(old(ghost.hdrVals), version)
+//@   closure 1 ensures only-the-version-header-is-written: ghost.hdrKeys == add(old(ghost.hdrKeys), "buf-version")
+//@   closure 1 ensures never-the-authorization-header: !("Authorization" in old(ghost.hdrKeys)) ==> !("Authorization" in ghost.hdrKeys)
+//
+// "wraps connect.Errors in an AugmentedConnectError ... providing the Procedure and Addr of the request"
+//@ func NewAugmentedConnectErrorInterceptor() (r)
+//@   property C19
+//@   modifies heap
+//@   closure 0 ensures true
+//@   closure 1 ensures no-header-written: ghost.hdrVals == old(ghost.hdrVals) && ghost.hdrKeys == old(ghost.hdrKeys)
+//@   callback pure next
+//@   closure 1 ensures response-passes-through: r == first(next(ctx, req))
+//@   closure 1 ensures no-error-stays-no-error: (err == nil) <==> (second(next(ctx, req)) == nil)
+//@   closure 1 ensures error-is-the-original-or-wraps-it: err != nil ==> err == second(next(ctx, req)) || (typeOf(err) == typeId(*AugmentedConnectError) && cast(*AugmentedConnectError, err).cause == second(next(ctx, req)))
+//@   closure 1 ensures wrapped-error-names-this-request: err != nil && err != second(next(ctx, req)) ==> cast(*AugmentedConnectError, err).addr == req.Peer().Addr && cast(*AugmentedConnectError, err).procedure == req.Spec().Procedure
+//
+// "logs CLI warnings returned by server responses": the text shown to the user is the decoded value of the documented
+// warning header (buf-warning-bin) of the header set it is given and of no other header; nothing is written to a request.
+// How it is stated: ghost.rg_warnAllowed is set (ghost code below, before the Warn statement) to the decoded value of THAT
+// header; the C19-tagged precondition of the trusted sink (*slog.Logger).Warn (R4g.spec) demands that the code passes exactly
+// ghost.rg_warnAllowed: obligation logWarningFromHeader#pre@...Warn[only-the-announced-warning-is-shown]. ghost.rg_warnN /
+// rg_debugN count the executions of the Warn / Debug statement.
+//@ func logWarningFromHeader(container, header)
+//@   property C19
+//@   modifies ghost.rg_warnAllowed, ghost.rg_warnN, ghost.rg_debugN
+//@   ghost before "container.Logger().Warn(" rg_warnAllowed := bstr(first(connect.DecodeBinaryHeader(header.Get("buf-warning-bin"))))
+//@   ghost after "container.Logger().Warn(" rg_warnN := ghost.rg_warnN + 1
+//@   ghost after "container.Logger().Debug(" rg_debugN := ghost.rg_debugN + 1
+//@   ensures no-header-written: ghost.hdrVals == old(ghost.hdrVals) && ghost.hdrKeys == old(ghost.hdrKeys)
+//@   ensures warning-shown-iff-the-header-carries-one: ghost.rg_warnN == old(ghost.rg_warnN) + ite(header.Get("buf-warning-bin") != "" && second(connect.DecodeBinaryHeader(header.Get("buf-warning-bin"))) == nil && len(first(connect.DecodeBinaryHeader(header.Get("buf-warning-bin")))) > 0, 1, 0)
+//@   ensures debug-note-only-for-an-undecodable-header: ghost.rg_debugN == old(ghost.rg_debugN) + ite(header.Get("buf-warning-bin") != "" && second(connect.DecodeBinaryHeader(header.Get("buf-warning-bin"))) != nil, 1, 0)
+//@   ensures shown-text-is-from-this-header-set: ghost.rg_warnN != old(ghost.rg_warnN) ==> ghost.rg_warnAllowed == bstr(first(connect.DecodeBinaryHeader(header.Get("buf-warning-bin"))))
+//
+// The warning interceptor hands response and error on unchanged, writes no request header, and looks for warnings only in
+// the header of THIS response or, when there is none, in the metadata of THIS error (logWarningFromHeader#post[shown-text-is-from-this-header-set] ties the text to the
+// header set the call was given).
+//@ func NewCLIWarningInterceptor(container) (r)
+//@   property C19
+//@   modifies heap
+//@   callback pure next
+//@   closure 0 ensures true
+//@   closure 1 ensures no-header-written: ghost.hdrVals == old(ghost.hdrVals) && ghost.hdrKeys == old(ghost.hdrKeys)
+//@   closure 1 ensures response-and-error-pass-through: r == first(next(ctx, req)) && err == second(next(ctx, req))
+//@   closure 1 ensures at-most-one-warning: ghost.rg_warnN == old(ghost.rg_warnN) || ghost.rg_warnN == old(ghost.rg_warnN) + 1
+//@   closure 1 ensures warning-of-this-response: r != nil && ghost.rg_warnN != old(ghost.rg_warnN) ==> ghost.rg_warnAllowed == bstr(first(connect.DecodeBinaryHeader(r.Header().Get("buf-warning-bin"))))
+//@   closure 1 ensures no-response-no-error-silent: r == nil && err == nil ==> ghost.rg_warnN == old(ghost.rg_warnN)
+//@   closure 1 ensures warning-of-this-error: r == nil && err != nil && ghost.rg_warnN != old(ghost.rg_warnN) ==> (exists e ref :: inChain(err, e) && ghost.rg_warnAllowed == bstr(first(connect.DecodeBinaryHeader(cast(*connect.Error, e).Meta().Get("buf-warning-bin")))))
+//
+// "The following information is collected for logging: duration, status code, peer name, rpc system, request size, and
+// response size": one debug record per call whose message is the procedure name and whose attribute list is exactly these
+// six, each built from the documented source - none from a header of the request (so the Authorization value never
+// reaches the log); response and error pass through unchanged; no header is written.
+//@ func NewDebugLoggingInterceptor(container) (r)
+//@   property C19
+//@   modifies heap
+//@   callback pure next
+//@   closure 0 ensures true
+//@   closure 1 ensures no-header-written: ghost.hdrVals == old(ghost.hdrVals) && ghost.hdrKeys == old(ghost.hdrKeys)
+//@   closure 1 ensures response-and-error-pass-through: r == first(next(ctx, req)) && err == second(next(ctx, req))
+//@   closure 1 ensures one-record-named-after-the-procedure: ghost.rg_logN == old(ghost.rg_logN) + 1 && ghost.rg_logMsg == strings.TrimPrefix(req.Spec().Procedure, "/")
+//@   closure 1 ensures nothing-else-logged: ghost.rg_warnN == old(ghost.rg_warnN) && ghost.rg_debugN == old(ghost.rg_debugN)
+//@   closure 1 ensures six-attributes: len(ghost.rg_logAttrs) == 6
+//@   closure 1 ensures attr-duration: exists d int :: ghost.rg_logAttrs[0] == slog.Duration("duration", d)
+//@   closure 1 ensures attr-status: ghost.rg_logAttrs[1] == slog.String("status", ite(err != nil, connect.CodeOf(err), zero(connect.CodeOf(err))).String())
+//@   closure 1 ensures attr-peer-is-this-requests-peer: ghost.rg_logAttrs[2] == slog.String("net.peer.name", req.Peer().Addr) && ghost.rg_logAttrs[3] == slog.String("rpc.system", req.Peer().Protocol)
+//@   closure 1 ensures attr-sizes: (exists n int :: ghost.rg_logAttrs[4] == slog.Int("message.sent.uncompressed_size", n)) && (exists n int :: ghost.rg_logAttrs[5] == slog.Int("message.received.uncompressed_size", n))
